@@ -13,6 +13,7 @@ pub mod e1;
 pub mod e2;
 pub mod e3;
 pub mod e5;
+pub mod e6;
 pub mod irrd;
 pub mod e7;
 pub mod junos;
@@ -67,6 +68,8 @@ pub fn dispatch(id: &str, tier: Tier, replay: Option<&str>, budget: Duration) ->
         "C19" => e7::run(&mut report),
         "C11" => e5::run_c11(&mut report, budget),
         "C17" => e5::run_c17(&mut report, budget),
+        "C04" => e6::run_c04(&mut report),
+        "C15" => e6::run_c15(&mut report),
         "probe-e5" => { e5::probe(); return 0; }
         _ => {
             eprintln!("unknown property {id}");
